@@ -14,11 +14,24 @@
       (`C16_short_eof_needs_sticky`, kernel-evaluated).
       Correspondence: `bufio.classify` (modes one/bytes/rand/eofdata/empty), unchanged.
 
-  (b) see the second part of this file.
+  (b) Stability of a "not saltpack" verdict of `IsSaltpackArmoredPrefix` given
+      BEFORE the frame expression matches.  Proved for every text that does not
+      begin like `BEGIN ` (`C16_armored_not_begin_stable`: ASCII `p` whose normal
+      form is neither a prefix of `BEGIN ` nor starts with `BEGIN `: `p` AND every
+      extension `p ++ q`, arbitrary bytes `q`, are "not saltpack" — the verdict a
+      binary-looking or foreign text gets, e.g. a PGP armor) — PARTIAL: the other
+      half (the normal form starts with `BEGIN ` but cannot be continued to a
+      frame, e.g. `BEGIN KB KB SALTPACK`) needs the converse of
+      `C16_header_extension` (a header match of `s ++ x` whose period lies inside
+      `s` is a match of `s`) and the word-wise monotonicity of the six prefix
+      tests; that half stays covered by the correspondence only (every prefix of
+      genuine and re-flowed frames, near misses, random strings: `classify.armored.*`)
+      and by the paper argument of notes/ext-d.md / notes/ext-g.md.
 
   Proofs: Proofs/BufioShort.lean.
 -/
 import Saltpack.Proofs.BufioShort
+import Saltpack.Proofs.ClassifyNotBegin
 
 namespace Saltpack.Props.C16
 open Saltpack Saltpack.Classify Saltpack.Stream Saltpack.Bufio Saltpack.Proofs.BufioP
@@ -93,6 +106,37 @@ theorem C16_short_eof_needs_sticky :
   intro p hp
   simp only [List.mem_cons, List.not_mem_nil, or_false] at hp
   rcases hp with rfl | rfl <;> simp
+
+/-! ## (b) "not saltpack" before the frame expression matches -/
+
+/-- **a text that does not begin like `BEGIN ` is "not saltpack", and stays so
+    under every extension**: ASCII `p`, normal form `s` (white-space runs
+    collapsed, trimmed) neither a prefix of `BEGIN ` nor starting with `BEGIN `;
+    `q` arbitrary bytes -/
+theorem C16_armored_not_begin_stable (p q : Bytes) (hp : ∀ c ∈ p, c < 128)
+    (h1 : ¬ Armor.trimSpace (Armor.collapse p) <+: Gen.c_sp_headerMarker ++ [Armor.space])
+    (h2 : ¬ Gen.c_sp_headerMarker ++ [Armor.space] <+: Armor.trimSpace (Armor.collapse p)) :
+    armoredPrefix p = .notSaltpack ∧ armoredPrefix (p ++ q) = .notSaltpack :=
+  Saltpack.Proofs.ClsStable.arm_not_begin_stable p q hp h1 h2
+
+/-- the same on normal forms, for any text `t` that starts with `s` and has no
+    trailing space -/
+theorem C16_norm_not_begin (s t : Bytes) (hst : s <+: t) (hlast : t.getLast? ≠ some Armor.space)
+    (h1 : ¬ s <+: Gen.c_sp_headerMarker ++ [Armor.space]) (h2 : ¬ Gen.c_sp_headerMarker ++ [Armor.space] <+: s) :
+    Saltpack.Proofs.ClsAux.classifyNorm t = .notSaltpack :=
+  Saltpack.Proofs.ClsStable.classifyNorm_not_begin s t hst hlast h1 h2
+
+/-- non-vacuity: `-----BEGIN PGP` (a PGP armor), `BEGINX`, `begin ` meet the hypotheses -/
+example : (∀ c ∈ ([45, 45, 45, 45, 45, 66, 69, 71, 73, 78, 32, 80, 71, 80] : Bytes), c < 128) ∧
+    ¬ Armor.trimSpace (Armor.collapse [45, 45, 45, 45, 45, 66, 69, 71, 73, 78, 32, 80, 71, 80]) <+:
+        Gen.c_sp_headerMarker ++ [Armor.space] ∧
+    ¬ Gen.c_sp_headerMarker ++ [Armor.space] <+:
+        Armor.trimSpace (Armor.collapse [45, 45, 45, 45, 45, 66, 69, 71, 73, 78, 32, 80, 71, 80]) := by decide
+example : armoredPrefix [66, 69, 71, 73, 78, 88] = .notSaltpack ∧
+    ¬ Armor.trimSpace (Armor.collapse [66, 69, 71, 73, 78, 88]) <+: Gen.c_sp_headerMarker ++ [Armor.space] ∧
+    ¬ Gen.c_sp_headerMarker ++ [Armor.space] <+: Armor.trimSpace (Armor.collapse [66, 69, 71, 73, 78, 88]) := by decide
+/-- the half that is NOT covered: starts with `BEGIN `, can never become a frame, "not saltpack" -/
+example : armoredPrefix [66, 69, 71, 73, 78, 32, 75, 32, 75, 32, 83] = .notSaltpack := by decide
 
 /-! ## non-vacuity of (a) -/
 
